@@ -34,6 +34,8 @@ def _labels_to_pos(dim, labels, dc=None, live=None):
 
 def slice_dims(scn):
     dims = scn["dims"]
+    if not dims:
+        return None, None
     ri, ci = envelope.slice_dim_indexes(dims)
     return dims[ri], (dims[ci] if ci is not None else None)
 
@@ -138,6 +140,25 @@ def replay(job, rec):
                                  (len(parts), len(rec["parts"])), {},
                                  tags=dict(base_tags, prop="<partitions>")))
             return {"evaluations": 1, "mismatches": mism, "nontrivial": True, "features": feats}
+        import numpy as np
+        for prop, e in (rec.get("cube") or {}).items():
+            if prop == "none" or (prop == "means" and "mean" not in scn.get("ymeasures", ())):
+                continue
+            evals += 1
+            try:
+                obs = np.asarray(getattr(cube, prop), dtype=float).ravel()
+            except Exception as ex:  # noqa
+                mism.append(Mismatch(prop_id, None, "Cube.%s raised %r" % (prop, ex), {},
+                                     tags=dict(base_tags, prop="Cube." + prop,
+                                               raises=type(ex).__name__)))
+                continue
+            errs = compare(obs, e)
+            if errs:
+                path, o, x = errs[0]
+                mism.append(Mismatch(prop_id, None, "Cube.%s[%s]: library %r, spec %r" %
+                                     (prop, ",".join(map(str, path)), o, x),
+                                     {"observed": to_py(obs), "expected": e},
+                                     tags=dict(base_tags, prop="Cube." + prop)))
         for k, (part, exp) in enumerate(zip(parts, rec["parts"])):
             for prop, e in exp.items():
                 if prop in skip or (only and prop not in only):
@@ -172,5 +193,29 @@ def replay(job, rec):
                         "%s[%s] partition %d: library %r, spec %r" %
                         (prop, ",".join(map(str, path)), k, o, x),
                         {"partition": k, "observed": to_py(obs), "expected": e}, tags=tags))
+        # second pass in reverse order over the same (now cached) objects: a read that
+        # modified another property's cached value in place shows up here
+        if not mism and not job.get("single_pass"):
+            for k, (part, exp) in enumerate(zip(parts, rec["parts"])):
+                for prop in reversed(list(exp)):
+                    e = exp[prop]
+                    if prop in skip or (only and prop not in only):
+                        continue
+                    if prop in YPROP_MEASURE and YPROP_MEASURE[prop] not in scn.get("ymeasures", ()):
+                        continue
+                    try:
+                        obs = observe(part, prop, scn, cfg, aux)
+                    except Exception:  # noqa
+                        continue
+                    errs = compare(obs, e)
+                    if errs:
+                        path, o, x = errs[0]
+                        mism.append(Mismatch(
+                            prop_id, None,
+                            "%s[%s] partition %d changed on a second read after other "
+                            "properties were read: library %r, spec %r" %
+                            (prop, ",".join(map(str, path)), k, o, x),
+                            {"partition": k, "observed": to_py(obs), "expected": e},
+                            tags=dict(base_tags, prop=prop, reread=True)))
     return {"evaluations": evals, "mismatches": mism,
             "nontrivial": "empty_data" not in feats, "features": feats}
